@@ -8,7 +8,7 @@
    permutation; everything else: the list function spec_step);
    refines ... s ops = along the history ops, as long as every operation is in range, each step
    keeps the invariant and satisfies spec_ok. *)
-From CelloV Require Import Generated SeqModels SeqProofs SortProofs SeqTupleProofs SeqErrorProofs SeqTheorems.
+From CelloV Require Import Generated SeqModels SeqProofs SortProofs SeqTupleProofs SeqErrorProofs SeqAccessProofs SeqTheorems.
 From Coq Require Import List ZArith Bool Permutation Sorted.
 Import ListNotations.
 
@@ -184,6 +184,30 @@ Proof.
           (fun t t' => SeqErrorProofs.t_raise_unchanged E eqb ltb same t o t' e))).
 Qed.
 Print Assumptions raising_step_changes_nothing.
+
+(* no hidden access state: reads (get, mem) interleaved anywhere in a history, from any start state,
+   change neither the final state nor what any other operation returns (final = state after the
+   history, trace = (operation, outcome) pairs, is_write = not get/mem).  Together with the refinement
+   theorems: what get returns after an operation sequence does not depend on which elements were
+   looked at before, and in which order — the obligation a cursor cache in List_At must meet *)
+Theorem reads_never_disturb :
+  forall (E : Type) (eqb ltb same : E -> E -> bool) (zero : E)
+         (gc sc : nat -> nat -> bool) (gs ss : nat -> nat -> nat) (ops : list (sop E)),
+  (forall a : array E,
+     final E _ (a_step E eqb ltb gc sc gs ss) a ops =
+       final E _ (a_step E eqb ltb gc sc gs ss) a (filter (is_write E) ops) /\
+     filter (fun p => is_write E (fst p)) (trace E _ (a_step E eqb ltb gc sc gs ss) a ops) =
+       trace E _ (a_step E eqb ltb gc sc gs ss) a (filter (is_write E) ops)) /\
+  (forall l : llist E,
+     final E _ (l_step E eqb zero) l ops = final E _ (l_step E eqb zero) l (filter (is_write E) ops) /\
+     filter (fun p => is_write E (fst p)) (trace E _ (l_step E eqb zero) l ops) =
+       trace E _ (l_step E eqb zero) l (filter (is_write E) ops)) /\
+  (forall t : tuple E,
+     final E _ (t_step E eqb ltb same) t ops = final E _ (t_step E eqb ltb same) t (filter (is_write E) ops) /\
+     filter (fun p => is_write E (fst p)) (trace E _ (t_step E eqb ltb same) t ops) =
+       trace E _ (t_step E eqb ltb same) t (filter (is_write E) ops)).
+Proof. exact SeqTheorems.reads_never_disturb. Qed.
+Print Assumptions reads_never_disturb.
 
 (* the repaired error-path defects of this area were real: witnesses on the pre-repair variants of
    the models (D13 cab8f5d, D14 9c281b5, D15 898595c; they concern C12, recorded here because the
